@@ -86,7 +86,8 @@ TYPE_VALUES = {
   "tag": ["", "<>", "</>", "<b", "b>", "<b>", "</b>", "</i>", "<font>", "</font>", '<font color="">', '<font color="#12">',
           '<font color="red">', "<font color>", '<font color="rgb(1,2)">', "<" + "b" * 5000 + ">", "<!--", "<?x", "<![CDATA[",
           "<ruby>", "</ruby>", "<rt>", "</rt>", "<c.>", "<c..red>", "<c.bg_>", "<lang>", "<v>", "<00:00:00.000>", "<99:99:99.999>",
-          "<00:00.5>", "<1>", "</ >", "<\t>", JUNK_TXT],
+          "<00:00.5>", "<1>", "</ >", "<\t>", JUNK_TXT,
+          "<b>" * 400, "<i>" * 1500, "</b>" * 5],       # "very long" for structure: nested start tags, repeated end tags
   "hex": ["", "0", "-1", "99999999", LONG_NUM, "zzzz", "942", "94200", "0000", "8080", "ffff", "7f7f", "1020", "1f2f", "1c20",
           "9420", "942c", "942f", "94ae", "9429", "9425", "94ad", "94a1", "94a4", "97a1", "97a2", "9723", "9140", "917f", "91ae",
           "91b0", "9220", "923f", "1320", "94a8", "9470", "94d0", "9454"],
